@@ -98,7 +98,7 @@ func ZZC01_resume() {
 	content := "abc"
 	net := &zzDropNet{content: content, subAt: zzInt("substituted_bytes_at_call", 0, 2)}
 	rg := New(WithSlog(slog.New(slog.NewTextHandler(io.Discard, nil))))
-	rg.reghttp = reghttp.ZZNewClientRT(net, 2+zzTier())
+	rg.reghttp = reghttp.ZZNewClientRT(net, 2)
 	d := descriptor.Descriptor{MediaType: "application/octet-stream", Digest: digest.FromString(content)}
 	if zzBool("size_known") {
 		d.Size = int64(len(content))
